@@ -9,6 +9,11 @@ for spec in translate/arith_C*.json; do
   id=$(basename "$spec" .json); id=${id#arith_}
   python3 translate/gen_arith.py "$spec" "lean/Pyunicorn/Generated/Arith${id}.lean" || true
 done
+for g in translate/gen_C*.py; do
+  [ -f "$g" ] || continue
+  id=$(basename "$g" .py); id=${id#gen_}
+  python3 "$g" "lean/Pyunicorn/Generated/Struct${id}.lean" || true
+done
 (cd lean && lake build Pyunicorn $(ls Drivers/*.lean | sed 's#Drivers/\(.*\)\.lean#drv_\L\1#') 2>&1 | tail -5) || true
 /venv/bin/python - <<'PY'
 import sys, os
